@@ -1104,11 +1104,10 @@ fn run_world(t: &mut Tape, c: &mut Case, strict: bool, known: &HashSet<String>) 
                 let sig = if matches!(git, Outcome::Fail(_))
                     && matches!(gix, Outcome::Lines(_))
                     && f.list.contains(&"hex-ambiguous")
-                    && f.single
-                    && (spec.contains("^{blob}") || spec.contains("^{tag}"))
                 {
-                    // git uses `^{commit}`/`^{tree}` (and ~n, ^n, :path) as disambiguation hints for an ambiguous
-                    // prefix, but not `^{blob}`/`^{tag}`: `d3a5^{blob}` with a tree and a blob candidate stays ambiguous
+                    // git uses only the operator directly attached to an ambiguous prefix as disambiguation hint, and only
+                    // `^{commit}`/`^{tree}`/~n/^n/:path: `d3a5^{blob}`, `814d^{tag}`, `c778^{object}^{tree}` stay ambiguous;
+                    // gitoxide narrows the candidates with every later step
                     "ambiguous-prefix-disambiguated-by-blob-or-tag-peel".to_string()
                 } else if matches!(git, Outcome::Fail(_)) && shorthand_on_non_commit(&gix, &built.parents) {
                     "range-shorthand-accepts-non-commit".to_string()
